@@ -2,7 +2,7 @@
    The specification's step (which the real code equals, C14_tie) is: one M1 fetch per opcode byte -- one for an
    unprefixed instruction, two for CB/ED/DD/FD forms, two or three for DDCB/FDCB (this project: three) -- each ticking
    R's low seven bits; operand fetches do not tick; no instruction other than LD I,A / LD R,A writes I or R. *)
-From Z80V Require Import Proofs.SpecFacts Proofs.SpecAll Proofs.Refresh Proofs.Iter Proofs.Halted.
+From Z80V Require Import Proofs.SpecFacts Proofs.SpecAll Proofs.Refresh Proofs.Block Proofs.BlockRefresh Proofs.Iter Proofs.Halted.
 
 Theorem C14_tie : forall cpu, WF cpu -> Step cpu = spec_step impl_unspec cpu.
 Proof. exact Step_ok. Qed.
@@ -93,3 +93,10 @@ Print Assumptions C14_halted_steps.
 Example C14_halted_premises_hold :
   WF halt_demo /\ g_Memory halt_demo = UserMem /\ g_Interrupt halt_demo = None /\ u8 (ram (g_W halt_demo) (g_PC halt_demo)) = 118.
 Proof. exact halt_demo_premises. Qed.
+
+(* ---- "again on every repetition of a block instruction": every Step of the generated code spent on LDIR/LDDR (on_ldxr: PC addresses
+   ED B0 / ED B8, no request pending) fetches the two opcode bytes again -- R makes exactly two ticks, I is kept ---- *)
+Theorem C14_block_repetition_ticks_twice : forall dec cpu, WF cpu -> on_ldxr dec cpu ->
+  g_IR_Hi (Step cpu) = g_IR_Hi cpu /\ g_IR_Lo (Step cpu) = r_tick (r_tick (g_IR_Lo cpu)).
+Proof. exact ldxr_repetition_ticks_twice_gen. Qed.
+Print Assumptions C14_block_repetition_ticks_twice.
